@@ -626,6 +626,9 @@ def to_arrow(a: ArrayType1D, zero_copy_only: bool = True) -> pa.Array | pa.Chunk
         else:
             if zero_copy_only and pd.api.types.is_bool_dtype(a):
                 raise TypeError("Zero copy conversions not possible with boolean types")
+            if a.dtype == object or isinstance(a.dtype, pd.StringDtype):
+                # strings: a leading missing value (NaN / None) must not decide the Arrow type
+                return pa.array(np.asarray(a), from_pandas=True)
             return pa.array(np.asarray(a))
     elif isinstance(a, np.ndarray):
         if zero_copy_only and a.dtype == bool:
